@@ -61,5 +61,20 @@ CHECKS["C07"] = {
             "TraitSetObject detached from its owner is out of scope (owner-level copies are checked, and C14 "
             "covers them in depth); trusted base: CPython set, reference model in props/c07_set.py",
 }
+CHECKS["C04"] = {
+    "category": "model_checking",
+    "technique": MC + " (all states x all mutators x valid/convertible/invalid payloads, independent re-validation walk)",
+    "text": "Nine container trait configurations (List(Int), List(Int,1..3), List(CInt,maxlen=2), List(Instance), "
+            "List(List(Int,maxlen=2),maxlen=2), Dict(Str,Int), Dict(CStr,List(Int)), Set(Int), Set(CInt)): every "
+            "contents state up to the bound, installed by whole-value assignment, x every mutator with every "
+            "index/slice and payloads carrying an invalid item at every position, on the outer container, on a "
+            "nested inner container and by re-assignment; after each operation an independent walk re-validates "
+            "every element (exact stored type) and the length bounds, refused operations must raise, leave "
+            "element identities untouched and call none of the static/_items, on_trait_change and observe "
+            "handlers; accepted ones must equal the reference model; depth-2 sequences reach states through "
+            "mutators instead of assignment.",
+    "note": "bounded: list length <=3 (quick) / <=4 (thorough), 2 valid + 1 convertible + 2 invalid item values per "
+            "inner trait; trusted base: the per-trait membership predicates in props/c04_containers.py",
+}
 
 NOT_CLAIMED = {}
